@@ -155,7 +155,7 @@ func (P) Gen(rng *sim.Rng, tier string) *harness.Case {
 						mangle = rng.Range(1, 10)
 					}
 					// (M == 1: the new content is written to a temporary file that is then renamed over the watched name)
-					ops = append(ops, harness.Op{K: "fwrite", A: pick(cfg.FileM), N: uint64(mangle), E: rng.Intn(10000), F: rng.Chance(0.7), M: uint64(rng.Intn(5) / 4)})
+					ops = append(ops, harness.Op{K: "fwrite", A: pick(cfg.FileM), N: uint64(mangle), E: rng.Intn(10000), F: rng.Chance(0.7), M: uint64([]int{0, 0, 0, 0, 0, 0, 1, 2}[rng.Intn(8)])})
 				}
 			}
 		}
@@ -605,6 +605,7 @@ func (P) Exec(c *harness.Case) *harness.Outcome {
 		list    []rs.RS
 		desc    []interface{}
 		gone    bool
+		gen     int // how many files have carried the watched name so far (a watch stays on the file it was put on)
 		// what the source last handed to its handler
 		applied bool
 	}
@@ -621,6 +622,7 @@ func (P) Exec(c *harness.Case) *harness.Outcome {
 		}
 		defer os.RemoveAll(dir)
 		fsrc = &fileState{path: filepath.Join(dir, "rules.json"), st: &hstate{h: mk(cfg.FileM)}, content: []byte("[]"), dec: true}
+		simfsnotify.GenOf = func(string) int { return fsrc.gen }
 		_ = os.WriteFile(fsrc.path, fsrc.content, 0o644)
 		fsrc.ds = file.NewFileDataSource(fsrc.path, fsrc.st.h)
 		initWrote := false
@@ -714,6 +716,13 @@ func (P) Exec(c *harness.Case) *harness.Outcome {
 				return false
 			}
 		}
+		if wt != nil && !wt.Closed() && ev.Name == fsrc.path && ev.Op == simfsnotify.Write {
+			// (a write is announced on the watch of the file that was written: the one that carries the name)
+			if g, ok := wt.WatchGen(fsrc.path); ok && g != fsrc.gen {
+				o.Fail("C18.file-source-holds-no-watch", step, "the file datasource is running, but its watch is still on a file that no longer carries the watched name (file no. %d; the name is carried by no. %d now): the write that has just been made, and every later one, will never reach it", g, fsrc.gen)
+				return false
+			}
+		}
 		if wt != nil && ev.Op == simfsnotify.Remove && ev.Name != "" {
 			wt.Drop(ev.Name) // the watch goes with the inode
 		}
@@ -745,7 +754,7 @@ func (P) Exec(c *harness.Case) *harness.Outcome {
 				_, err := os.Lstat(fsrc.path)
 				replaced = err == nil
 			}
-			if received && (ev.Op == simfsnotify.Write || replaced) {
+			if received && (ev.Op == simfsnotify.Write || ev.Op == simfsnotify.Chmod || replaced) {
 				o.Probe("file_converged")
 				if fsrc.dec && !(fsrc.st.has && string(fsrc.st.last) == string(fsrc.content)) {
 					fsrc.st.last, fsrc.st.has = append([]byte{}, fsrc.content...), true
@@ -886,14 +895,29 @@ func (P) Exec(c *harness.Case) *harness.Outcome {
 			if len(payload) == 0 || string(payload) == "null" {
 				list, described = nil, nil
 			}
-			if op.M == 1 {
-				// replaced atomically: the watch is on the inode that has just lost its last name, which inotify
-				// announces as the removal of the watched file (and drops the watch)
+			if op.M >= 1 {
+				// replaced atomically (events are ordered: what is pending for the old file comes first)
+				for len(fsrc.pending) > 0 {
+					if !deliverEvent(step, 1) {
+						return o
+					}
+				}
 				_ = os.WriteFile(fsrc.path+".tmp", payload, 0o644)
 				_ = os.Rename(fsrc.path+".tmp", fsrc.path)
+				fsrc.gen++
 				fsrc.content, fsrc.dec, fsrc.list, fsrc.desc = payload, decodable, list, described
-				fsrc.pending = append(fsrc.pending, simfsnotify.Event{Name: fsrc.path, Op: simfsnotify.Remove})
-				o.Fault("file_replaced_by_a_rename_over_it")
+				if op.M == 1 {
+					// the watch is on the inode that has just lost its last name, which inotify announces as the
+					// removal of the watched file (and drops the watch)
+					fsrc.pending = append(fsrc.pending, simfsnotify.Event{Name: fsrc.path, Op: simfsnotify.Remove})
+					o.Fault("file_replaced_by_a_rename_over_it")
+				} else {
+					// ... or the replaced file lives on - under another name (a hard link kept as a backup) or in
+					// the hands of a process that has it open: all its watch announces is a change of attributes
+					// (the link count). The source reads the new file then; its watch has to follow.
+					fsrc.pending = append(fsrc.pending, simfsnotify.Event{Name: fsrc.path, Op: simfsnotify.Chmod})
+					o.Fault("file_replaced_by_a_rename_over_it_while_the_old_file_lives_on")
+				}
 				if !deliverEvent(step, 1) {
 					return o
 				}
@@ -981,6 +1005,7 @@ func (P) Exec(c *harness.Case) *harness.Outcome {
 			_ = os.Rename(fsrc.path, fsrc.path+".bak")
 			_ = os.WriteFile(fsrc.path, fsrc.content, 0o644)
 			_ = os.Remove(fsrc.path + ".bak")
+			fsrc.gen++
 			o.Fault("file_rotated")
 			evs := []simfsnotify.Event{{Name: fsrc.path, Op: simfsnotify.Rename}, {Name: "", Op: simfsnotify.Remove}}
 			if op.F {
